@@ -16,7 +16,7 @@ int64_t g_live, g_bad; // instance accounting of the Counted value type (see api
 // the (state, call) pair of a counterexample, for trace extraction and lifting
 extern "C" {
 int64_t  h_last_now, h_pre_ttl, h_pre_tick;
-uint64_t h_pre_n, h_pre_k[AMAX], h_pre_v[AMAX], h_pre_cnt[AMAX];
+uint64_t h_pre_n, h_pre_k[AMAX], h_pre_v[AMAX], h_pre_cnt[AMAX], h_pre_o2[AMAX];
 int64_t  h_pre_d[AMAX], h_pre_age[AMAX];
 uint64_t h_op[2], h_k[2], h_v[2], h_a[2], h_pk[2];
 int64_t  h_ttl[2], h_now[2];
@@ -67,7 +67,7 @@ extern "C" int harness()
     h_last_now = last_now; h_pre_ttl = pre.ttl; h_pre_tick = pre.tick; h_pre_n = pre.n;
     for (size_t p = 0; p < AMAX; ++p)
     {
-        h_pre_k[p] = pre.k[p]; h_pre_v[p] = pre.v[p]; h_pre_cnt[p] = pre.cnt[p]; h_pre_d[p] = pre.d[p]; h_pre_age[p] = pre.age[p];
+        h_pre_k[p] = pre.k[p]; h_pre_v[p] = pre.v[p]; h_pre_cnt[p] = pre.cnt[p]; h_pre_d[p] = pre.d[p]; h_pre_age[p] = pre.age[p]; h_pre_o2[p] = pre.o2[p];
     }
     h_op[0] = ev.op; h_k[0] = ev.k; h_v[0] = ev.v; h_a[0] = ev.a; h_pk[0] = ev.pk; h_ttl[0] = ev.ttl; h_now[0] = ev.now;
     Res r;
